@@ -12,7 +12,7 @@ from collections import Counter
 from vt import core, dsw, gen
 
 PROP = 'C26'
-RULE = ('6 inner blocks (with/without preamble) x constraint menu (AtMostKInARow, AtLeastKInARow, ExactlyKInARow, ExactlyK, Pin first/last; '
+RULE = ('inner blocks (with/without preamble, with a weighted uncrossed factor) x constraint menu (AtMostKInARow, AtLeastKInARow, ExactlyKInARow, ExactlyK, Pin first/last; '
         'level and whole-factor forms) x combinators (Repeat to 2 and 3 repetitions, partial last repetition per A3, Merge, Nest) x 2 placements; '
         'states = sequences compared; non-trivial = the two placements of the pair have different reference sets.')
 ASSUMPTIONS = ['reference model vt/ref.py (documented windows; A3/A4 exclusions of DESIGN.md section 3)']
@@ -37,7 +37,8 @@ def items(tier, seed):
     A = gen.basic('A', 2); Bf = gen.basic('B', 2); O = gen.basic('O', 2)
     fm0 = {'A': A, 'B': Bf}
     TA = gen.window('TA', ['A'], fm0, 2, gen.same, kind='transition', start=1)
-    inners = [([A, Bf], ['A'], 2, 0), ([A, Bf], ['A', 'B'], 4, 0), ([A, Bf, TA], ['TA'], 2, 1)]
+    Bw = gen.basic('B', 2, [2, 1])        # weighted and outside the crossing: constraints on it are rewritten to a hidden factor
+    inners = [([A, Bf], ['A'], 2, 0), ([A, Bf], ['A', 'B'], 4, 0), ([A, Bf, TA], ['TA'], 2, 1), ([A, Bw], ['A'], 2, 0)]
     if tier == 'thorough':
         inners.append(([A, Bf, TA], ['B', 'TA'], 4, 1))
     out = []
